@@ -351,6 +351,17 @@ theorem null_string_counterexample :
     decode (encodeBare (.atom (.str "null"))) = none ∧ decode (encodeBare (.atom (.str "~"))) = none ∧
     reinfer (.atom (.str "null")) = some (.ok (.atom (.str "null"))) := by decide
 
+/-- the `sorted` flag the import computes: `b6.Less` compares a float with an int but not an int with a
+float, and a string with an int not at all — such neighbours must not make a collection "sorted" (binary
+search would compare them and miss): before `fixes/C18-collection-sorted-mixed-keys.patch` the keys
+`[-1, 1.0]` passed the one-way test -/
+theorem mixed_keys_not_sorted :
+    atomLess (.flt "3ff0000000000000") (.int (-1)) = some false ∧ atomLess (.int (-1)) (.flt "3ff0000000000000") = none ∧
+    keysSorted [.int (-1), .flt "3ff0000000000000"] = false ∧
+    keysSorted [.int 1, .str "a", .int 2] = false ∧
+    keysSorted [.int 1, .int 1, .int 2, .int 5] = true ∧
+    keysSorted [.flt "3fe0000000000000", .flt "3ff8000000000000", .flt "4004000000000000"] = true := by decide
+
 /-- lists are written as their `;`-joined rendering: a one-element list comes back as a scalar, an int
 element as a string (outside the property: such lists are not produced by `ExpressionFromString`) -/
 theorem list_kind_counterexample :
